@@ -810,7 +810,7 @@ func TestVerifC18(t *testing.T) {
 	}
 	r.Assume("process kill only (SIGKILL): bytes handed to write() survive; power loss is not simulated")
 	r.Assume("commit<=fsync is decided on the strace of a child process; strace sees syscalls in completion order of one writer goroutine")
-	nLogs := r.N(240, 3000)
+	nLogs := r.N(240, 1200)
 	if v, err := strconv.Atoi(os.Getenv("VERIF_C18_LOGS")); err == nil {
 		nLogs = v // calibration aid only
 	}
